@@ -33,6 +33,8 @@ def _queries(tier):
                             defs = {'OP': op, 'NA': na, 'NB': nb, 'AORD': aord, 'BORD': bord, 'AFORM': af, 'BFORM': bf, 'RORD': rord, 'ULG': 3}
                             if op != 2 and (tier == 'thorough' or na + nb <= 3): defs['SWAP'] = None
                             cd = dict(cuts)
+                            if op == 1:   # intersection tables are sized from the entry count: resize()/rebuild()/vector growth are unreachable in fact: cut, the solver proves it
+                                cd.update({'VERIF_CUT_THETA_RESIZE': None, 'VERIF_CUT_THETA_REBUILD': None, 'VERIF_CUT_VECTOR_REALLOC': None, 'VERIF_NEW_CAPN': 8})
                             if op == 0:
                                 # union: unit-level table of 8 slots, k = 4 (k = 2 / 4 slots when there are <= 3 entries): <= 6 entries never reach resize()/rebuild(): cut and let the solver prove it
                                 defs['ULGK'] = 2 if na + nb > 3 else 1
